@@ -34,6 +34,8 @@ PICK = {
     "S9": dict(g0=["a", "b"], p0=["a", "b"], l0=["a", "c"], u0=["a", "b"], imp=["late", "a"]),
     "S8": dict(g0=["a", "b"], p0=["a", "b"], l0=["a", "b", "c"], u0=["a", "b"]),
     "S10": dict(g0=["a"], g1=["b"], p0=["a", "b"], u0=["a", "b"], p1=["c", "b"], u1=["a", "b"], ann=["int"], l0=["a", "c"], u2=["a", "b"]),
+    "S2T": dict(g0=["a", "b"], k0=["a", "b"], u2=["5", "{g0}"], p1=["a", "b"], u3=["a", "{p1}"], u4=["a", "b"]),
+    "S13": dict(g0=["a"], g1=["b"], k0=["a", "b"], k1=["b", "c"], u0=["a", "b"], u1=["b", "c"]),
     "S11": dict(k0=["a"], m0=["c"], g0=["caf\u00e9", "match", "case", "type", "_", "a"], g1=["stra\u00dfen", "b"]),
     "S12": dict(g0=["a"], l0=["a", "b"], p1=["c", "b"], mb=["pass"], w=["{l0} = 7", "{l0} += 1"], u1=["a", "b"]),
     "S3C": dict(g0=["a"], p0=["a", "b"], c2=["a", "b"], e0=["e", "a"], w0=["w"], t0=["t", "a"], u2=["b"]),
@@ -66,7 +68,7 @@ def mods():
 class C20(Check):
     pid = "C20"
     level = "exploration"
-    rule = ("cases = modules of 12 scoping schemas (incl. non-ASCII and soft-keyword receiver names, nonlocal through three nested functions) (incl. multi-line default values / annotations / decorator arguments that read names the function also binds) (incl. a function-level import of a project module) (incl. multi-line statements whose continuation lines are indented less than the enclosing def) (selected hole menus; CPython-valid); evaluations = one code_assist call per "
+    rule = ("cases = modules of 14 scoping schemas (incl. a tab-indented class, comprehensions in a class body) (incl. non-ASCII and soft-keyword receiver names, nonlocal through three nested functions) (incl. multi-line default values / annotations / decorator arguments that read names the function also binds) (incl. a function-level import of a project module) (incl. multi-line statements whose continuation lines are indented less than the enclosing def) (selected hole menus; CPython-valid); evaluations = one code_assist call per "
             "(module, character offset, variant in {as is, rest of line deleted}, maxfixes in {1,3}, later_locals in {T,F}) and one "
             "get_definition_location call per identifier token; checks: no exception on a valid module (only RopeError tolerated on "
             "the truncated variant); every proposal starts with the typed prefix; on statement-body positions outside "
